@@ -212,7 +212,7 @@ Definition value_number (ty : ntype) (v : tval) : cres nval :=
     end
   | VC z =>
     match ty with
-    | NChr => if (0 <=? z) && is_graph (Z.to_N z) then CVal (NvInt z) else CErr BadType
+    | NChr => CVal (NvInt (z mod 256))   (* same type: copied verbatim after the converter's isgraph refusal *)
     | NF32 | NF64 => CErr BadType   (* not generated: float image of a char is not part of the case *)
     | NU8 | NU32 => if 0 <=? z then CVal (NvInt z) else CErr BadType
     | NI16 | NI32 => CVal (NvInt z)
